@@ -1110,6 +1110,62 @@ impl World {
 		r.is_ok()
 	}
 
+	/// Multi-path, multi-hop send: one payment whose parts travel over the given paths
+	/// (each a list of (node, channel used to reach it)). Registers the payment at the payee. Returns payment index.
+	pub fn send_multipath(&mut self, from: usize, paths_in: &[(Vec<(usize, ChannelId)>, u64)], policy: ClaimPolicy) -> usize {
+		let to = paths_in[0].0.last().unwrap().0;
+		let total: u64 = paths_in.iter().map(|p| p.1).sum();
+		let pre = {
+			let mut p = [0u8; 32];
+			p[0] = self.next_preimage;
+			p[1] = 0x77;
+			self.next_preimage += 1;
+			PaymentPreimage(p)
+		};
+		let hash = PaymentHash(bitcoin::hashes::sha256::Hash::hash(&pre.0).to_byte_array());
+		let secret = self.nodes[to].cm.create_inbound_payment_for_hash(hash, None, 7200, None, None).expect("create_inbound_payment_for_hash").0;
+		let mut paths = Vec::new();
+		for (hops, amt) in paths_in {
+			let mut prev = from;
+			let mut rh = Vec::new();
+			for (i, (node, cid)) in hops.iter().enumerate() {
+				let ch = self.chan(prev, cid).expect("route channel");
+				let last = i + 1 == hops.len();
+				rh.push(RouteHop {
+					pubkey: self.nodes[*node].id,
+					node_features: self.nodes[*node].cm.node_features(),
+					short_channel_id: ch.short_channel_id.expect("scid"),
+					channel_features: self.nodes[*node].cm.channel_features(),
+					fee_msat: if last { *amt } else { 1000 },
+					cltv_expiry_delta: 100,
+					maybe_announced_channel: true,
+				});
+				prev = *node;
+			}
+			paths.push(Path { hops: rh, blinded_tail: None });
+		}
+		let route = Route { paths, route_params: RouteParameters::from_payment_params_and_value(PaymentParameters::from_node_id(self.nodes[to].id, 100), total) };
+		let id = PaymentId(hash.0);
+		let r = self.nodes[from].cm.send_payment_with_route(route, hash, RecipientOnionFields::secret_only(secret, total), id);
+		self.obs.push(Obs::Api { node: from, what: format!("send_multipath {}", total), ok: r.is_ok(), detail: format!("{:?}", r) });
+		self.payments.push(PaymentRec {
+			id,
+			hash,
+			preimage: pre,
+			secret,
+			from,
+			to,
+			amount_msat: total,
+			policy,
+			send_ok: r.is_ok(),
+			send_err: format!("{:?}", r),
+			claimed_by_recipient: false,
+			failed_by_recipient: false,
+		});
+		self.pump();
+		self.payments.len() - 1
+	}
+
 	/// Multi-part send over several direct paths in one `send_payment_with_route` call.
 	pub fn send_mpp(
 		&mut self, from: usize, to: usize, parts: &[(ChannelId, u64)], hash: PaymentHash, onion: RecipientOnionFields,
